@@ -85,3 +85,15 @@ def legacyGaugeAfterUnsubOfNeverSubscribed : Int := 0 - 1
 theorem d2_negative_gauge : legacyGaugeAfterUnsubOfNeverSubscribed < 0 := by decide
 
 end Hpfeeds.Legacy
+
+namespace Hpfeeds.Legacy
+
+/-! ### D3 — env store before "fix: env authenticator grants no channel when PUBCHANS/SUBCHANS is unset or
+    empty" (commit f9b4812): `get_key(ident, 'pubchans', '').split(',')`. -/
+
+def legacySplitComma (s : Bytes) : List Bytes := s.splitOn 44
+
+/-- an identity with only a SECRET was granted the channel named '' -/
+theorem d3_empty_grant : ([] : Bytes) ∈ legacySplitComma [] := by decide
+
+end Hpfeeds.Legacy
